@@ -350,6 +350,13 @@ def run(ctx: Ctx):
                 first = n.targets[0].elts[0]
                 if isinstance(first, ast.Name) and first.id == rec_key:
                     rk_ok = True
+        # ... unchanged: the duplicate check looks the window up under the Origin-Host as it was
+        # received, so a normalised (lower-cased, stripped, decoded) copy files the answer where
+        # the check never looks
+        stores = [n for n in A.walk_no_nested(rec.node) if isinstance(n, ast.Name)
+                  and isinstance(n.ctx, ast.Store) and n.id == rec_key]
+        if len(stores) > 1:
+            rk_ok = False
     ctx.inst(cons, sample={"recorded": orig_key, "lookup": lookup, "window_key_from_record": rk_ok})
     if orig_key is not None and lookup is not None and orig_key != lookup:
         ctx.fail(cons, R.f.loc(), f"the origin is recorded as `{orig_key}` but the duplicate check "
